@@ -482,6 +482,37 @@ func registerFS(ex *Executor) {
 		st.note("fs: remove %s", n)
 		return IfaceV{}, cNext
 	}
+	// os.RemoveAll(dir): the directory, everything below it and the directories below it disappear (open descriptors keep
+	// their inodes)
+	I["os.RemoveAll"] = func(ex *Executor, st *State, cc *CallCtx, args []Val) (Val, ctl) {
+		p := strOf(args[0])
+		if !p.IsConst() {
+			ex.abort("RemoveAll with symbolic path")
+		}
+		fs := ex.fsGet(st).clone()
+		pre := p.S + "/"
+		var keep []FSEntry
+		for _, e := range fs.Entries {
+			full := e.Name.Lit
+			if e.Name.Hole != nil {
+				full = e.Name.Pre
+			}
+			if strings.HasPrefix(full, pre) {
+				fs.Removed = append(fs.Removed, e.Name.String())
+				continue
+			}
+			keep = append(keep, e)
+		}
+		fs.Entries = keep
+		for d := range fs.Dirs {
+			if d == p.S || strings.HasPrefix(d, pre) {
+				delete(fs.Dirs, d)
+			}
+		}
+		st.Ghost["fs"] = fs
+		st.note("fs: remove-all %s", p.S)
+		return IfaceV{}, cNext
+	}
 	I["os.Chmod"] = func(ex *Executor, st *State, cc *CallCtx, args []Val) (Val, ctl) {
 		fs0 := ex.fsGet(st)
 		i := ex.fsFind(st, fs0, ex.parseName(strOf(args[0])))
